@@ -74,6 +74,10 @@ class WebSocketWriter:
         self, message: bytes, opcode: int, compress: int | None = None
     ) -> None:
         """Send a frame over the websocket with message as its payload."""
+        if isinstance(message, memoryview) and message.nbytes != len(message):
+            # len() counts items, the frame lengths below are byte counts
+            message = message.cast("B")
+
         if opcode >= WS_CONTROL_FRAME_OPCODE and len(message) > 125:
             # https://datatracker.ietf.org/doc/html/rfc6455#section-5.5
             raise ValueError("Control frame payload cannot be larger than 125 bytes")
